@@ -1,6 +1,7 @@
 import Bifrost.Model.Framing
 import Bifrost.Gen.Limits
 import Bifrost.Lemmas.Framing
+import Bifrost.Lemmas.FramingEnd
 /-!
 C07 — Stream headers are framed exactly and dispatched to the named protocol.
 Property theorems only; helper lemmas live in `Bifrost/Lemmas/Framing.lean`.
@@ -73,5 +74,53 @@ theorem truncated_rejected (pid : Bytes) (cs : Reader) (k : Nat)
 /-- Non-vacuity: a concrete valid header, split awkwardly, with payload. -/
 example : observe limit [[5], [], [0x0a, 3, 0x61], [0x62, 0x63, 0xff], [0xee]]
     = .ok ([0x61, 0x62, 0x63], [0xff, 0xee], 5) := by decide
+
+/-! ### "Every way the stream is split into reads" includes the read that ends it
+
+An `io.Reader` may hand out its final bytes together with the error (`n > 0, io.EOF`: quic-go
+when data and FIN arrive together). `readHeaderE … lastWithErr` is the reader of the code on a
+stream that ends either way. -/
+
+/-- `observe` on a reader that ends as `lastWithErr` says. -/
+def observeE (max : Nat) (cs : Reader) (lastWithErr : Bool) : Except HdrErr (Bytes × Bytes × Nat) :=
+  match readHeaderE max cs lastWithErr with
+  | .ok (pid, r, a) => .ok (pid, r.flatten, a)
+  | .error e => .error e
+
+/-- Whether the end of the stream is reported by a read of its own or by the read that returns
+the last bytes makes no difference to what is decoded, left unread, allocated, or rejected — for
+arbitrary (also malformed) streams and every chunking. -/
+theorem end_mode_independent (max : Nat) (cs : Reader) (lastWithErr : Bool) :
+    observeE max cs lastWithErr = observe max cs := by
+  unfold observeE observe
+  rw [readHeaderE_eq]
+
+/-- A complete header whose last bytes arrive together with the end of the stream (with or
+without payload, any chunking) is ACCEPTED, exactly like on any other reader. -/
+theorem read_marshal_any_chunking_any_end (pid rest : Bytes) (cs : Reader) (lastWithErr : Bool)
+    (hv : pidValid pid = true)
+    (hs : (encodeEstablish pid).length ≤ limit)
+    (hcat : cs.flatten = marshalHeader pid ++ rest) :
+    observeE limit cs lastWithErr = .ok (pid, rest, (encodeEstablish pid).length) := by
+  rw [end_mode_independent]
+  exact read_marshal_any_chunking pid rest cs hv hs hcat
+
+/-- A truncated header is REJECTED also when its last bytes arrive together with the end of the
+stream (the bytes that never arrived are not made up). -/
+theorem truncated_rejected_any_end (pid : Bytes) (cs : Reader) (k : Nat) (lastWithErr : Bool)
+    (hs : (encodeEstablish pid).length ≤ limit)
+    (hne : pid ≠ [])
+    (hk : k < (marshalHeader pid).length)
+    (hcat : cs.flatten = (marshalHeader pid).take k) :
+    ∃ e, readHeaderE limit cs lastWithErr = .error e := by
+  rw [readHeaderE_eq]
+  exact truncated_rejected pid cs k hs hne hk hcat
+
+/-- Non-vacuity: the same complete header with its last bytes returned together with EOF is
+accepted; cut one byte short it is rejected (in the prefix read and in the body read). -/
+example : observeE limit [[5, 0x0a], [3, 0x61, 0x62, 0x63]] true = .ok ([0x61, 0x62, 0x63], [], 5) ∧
+    observeE limit [[3, 0x0a, 1, 0x61]] true = .ok ([0x61], [], 3) ∧
+    observeE limit [[5, 0x0a], [3, 0x61, 0x62]] true = .error .io ∧
+    observeE limit [[3, 0x0a, 1]] true = .error .io := by decide
 
 end Bifrost.Props.C07
